@@ -1,5 +1,5 @@
 import Bifrost.Model.Signaling
-import Bifrost.Lemmas.SigSess
+import Bifrost.Lemmas.SigSessMain
 /-!
 C20 — The relay server forwards only authentic messages to the session partner.
 -/
@@ -12,33 +12,37 @@ authenticated identity of the submitting stream, in the epoch announced to the r
 theorem forward_only_if (s : State) (h : Reachable s) :
     ∀ c ∈ s.scalls, ∀ m, Resp.recv m ∈ c.outbox →
       ∃ e, c.announced = some e ∧ acceptedFor s c.sess e c m = true := by
-  sorry
+  intro c hc m hm
+  obtain ⟨t, _, hci⟩ := SigSess.reachable_call h hc
+  exact hci.fwd m hm
 
 /-- Every accepted submission passed the admission check. -/
 theorem accepted_admitted (s : State) (h : Reachable s) :
     ∀ x ∈ s.accepted, ∃ cf, getSCall s x.2.2.1 = some cf ∧ admit x.2.2.2.2.1 x.2.2.2.2.2 cf.src = true := by
-  sorry
+  exact (SigSess.reachable_good h).inv.acc
 
 /-- A submission that does not verify, or is signed by anyone but the stream's authenticated
 identity, is rejected: the stream's reader stops with an error and nothing is stored. -/
 theorem unauthentic_rejected (s : State) (c : SCall) (epoch : Nat) (m : Msg) (v : Bool) (g : Nat)
     (hc : getSCall s c.id = some c) (hadm : admit v g c.src = false) :
     sSend s c.id epoch m v g = setSCall s { c with readerDone := true } := by
-  sorry
+  simp [sSend, hc, hadm]
 
 /-- A message for an epoch newer than the server's is rejected (the stream fails), not stored. -/
 theorem future_epoch_rejected (s : State) (c : SCall) (t : Sess) (epoch : Nat) (m : Msg) (v : Bool) (g : Nat)
     (hc : getSCall s c.id = some c) (ht : getSess s c.sess = some t)
     (hadm : admit v g c.src = true) (hfut : t.seqno < epoch) :
     sSend s c.id epoch m v g = setSCall s { c with readerDone := true } := by
-  sorry
+  simp [sSend, hc, hadm, ht, hfut]
 
 /-- A message for an older epoch is not forwarded (no effect at all). -/
 theorem stale_not_forwarded (s : State) (c : SCall) (t : Sess) (epoch : Nat) (m : Msg) (v : Bool) (g : Nat)
     (hc : getSCall s c.id = some c) (ht : getSess s c.sess = some t)
     (hadm : admit v g c.src = true) (hstale : epoch < t.seqno) :
     sSend s c.id epoch m v g = s := by
-  sorry
+  have h1 : ¬ t.seqno < epoch := by omega
+  have h2 : t.seqno ≠ epoch := by omega
+  simp [sSend, hc, hadm, ht, h1, h2]
 
 /-- Acks and clears only ever affect the message they name (server side of C21): an ack for
 `k` changes nothing unless `k` is the message this side was sent and has not yet acked. -/
@@ -46,13 +50,19 @@ theorem ack_names_its_message (s : State) (c : SCall) (t : Sess) (ours other : A
     (hc : getSCall s c.id = some c) (ht : getSess s c.sess = some t)
     (hp : activePair t c = some (ours, other)) (hk : ours.recvSent ≠ some k) :
     sAck s c.id epoch k = s ∨ sAck s c.id epoch k = setSCall s { c with readerDone := true } := by
-  sorry
+  simp only [sAck, hc, ht, hp]
+  split
+  · right; rfl
+  · left; split <;> first | rfl | simp [hk]
 
 theorem clear_names_its_message (s : State) (c : SCall) (t : Sess) (ours other : Att) (epoch k : Nat)
     (hc : getSCall s c.id = some c) (ht : getSess s c.sess = some t)
     (hp : activePair t c = some (ours, other))
     (hk : (other.recv.map (·.seqno)) ≠ some k) (hk' : other.recvSent ≠ some k) :
     sClear s c.id epoch k = s ∨ sClear s c.id epoch k = setSCall s { c with readerDone := true } := by
-  sorry
+  simp only [sClear, hc, ht, hp]
+  split
+  · right; rfl
+  · left; split <;> first | rfl | simp [hk, hk']
 
 end Bifrost.Props.C20
